@@ -201,7 +201,44 @@ Section WithAddresses.
     flat_map (content all) (members all h).
 
   Definition slice {A} (l : list A) (off len : nat) : list A := firstn len (skipn off l).
+
+  (* ---- memory as the code writes it: one write per placed item - data and bss by
+     load_bss_data_section's placement pass, ref and expr by MIR_link, lref by the engine that
+     prepares the function -, at the address the placement pass gave the item *)
+  Record wr := { w_idx : nat; w_addr : Z; w_bytes : list (option Z) }.
+
+  Definition item_write (all : list item) (i : nat) : option wr :=
+    match nth_error all i, place_of all i with
+    | Some it, Some p =>
+        Some {| w_idx := i; w_addr := base (p_head p) + Z.of_nat (p_off p); w_bytes := content all it |}
+    | _, _ => None
+    end.
+
+  Definition item_writes (all : list item) : list wr :=
+    flat_map (fun i => match item_write all i with Some w => [w] | None => [] end) (seq 0 (length all)).
 End WithAddresses.
+
+(* a byte of memory: None = never written by the module's initialisation, Some None = written but
+   unspecified (x87 padding), Some (Some b) = written with b *)
+Definition mem := Z -> option (option Z).
+
+Definition write (m : mem) (a : Z) (bs : list (option Z)) : mem :=
+  fun x => if (a <=? x) && (x <? a + Z.of_nat (length bs)) then nth_error bs (Z.to_nat (x - a)) else m x.
+
+Fixpoint apply_writes (ws : list wr) (m : mem) : mem :=
+  match ws with
+  | [] => m
+  | w :: r => apply_writes r (write m (w_addr w) (w_bytes w))
+  end.
+
+(* what the allocator has to guarantee: the blocks of different sections do not overlap (as far as
+   they are used) *)
+Definition blocks_disjoint (base : nat -> Z) (all : list item) : Prop :=
+  forall h1 h2, h1 <> h2 ->
+    place_of all h1 = Some {| p_head := h1; p_off := 0 |} ->
+    place_of all h2 = Some {| p_head := h2; p_off := 0 |} ->
+    base h1 + Z.of_nat (sum_sizes all (members all h1)) <= base h2 \/
+    base h2 + Z.of_nat (sum_sizes all (members all h2)) <= base h1.
 
 (* ---------------------------------------------------------------- load-time checks *)
 
